@@ -193,6 +193,7 @@ func drawStop(rt *rapid.T, o gen.HistOpt, kinds []string) *StopCase {
 	case "cancel_out", "cancel_in", "cancel_gate", "cancel_log", "cancel_busy", "handler_err", "handler_err_cancel", "mapper_err", "mapper_cols", "unsupported", "invalid", "undecodable":
 		c.QuietAfter = rapid.Bool().Draw(rt, "quiet_after")
 	}
+	c.CustomCtx = rapid.IntRange(0, 3).Draw(rt, "own_context_type") == 0
 	if rapid.IntRange(0, 3).Draw(rt, "chop") == 0 {
 		c.Chop = rapid.Uint32Range(1, 1<<32-1).Draw(rt, "chop_seed")
 	}
@@ -232,6 +233,9 @@ func stopClasses(c *StopCase, o *StopObs) []string {
 	}
 	if c.Chop != 0 {
 		cls = append(cls, "bytes-arrive-in-pieces")
+	}
+	if c.CustomCtx {
+		cls = append(cls, "context-of-the-callers-own-type")
 	}
 	if len(c.H.Units) >= 400 && c.Handler == HandlerGated && c.GateCall == 1 {
 		cls = append(cls, "deep-backlog-behind-gated-first-call")
